@@ -5,7 +5,7 @@ from ..e1 import engine, gen, oracles, reduce, sim
 RULE = ("(async-contexts) programs with recording AsyncContext blocks spanning 1..k yields, nested, in many concurrently pending tasks, left normally / by a "
         "delivered error / by an early result, with synchronous re-entry and DAG sharing; non-trivial = >= 2 tasks were inside a recording context across a "
         "flush, or a block was left by an exception. (nonasync) yield-only tree programs with NonAsyncContext blocks; non-trivial = some task yielded inside "
-        "such a block. distinct = distinct program JSON")
+        "such a block. distinct = distinct program JSON. Blocks also occur inside async-generator bodies (consumed whole or by hand under the consumer's blocks) and around call_with_context.")
 ASSUMPTIONS = ["for a task awaited by two parents nothing is asserted about which awaiter's contexts are active (only that unrelated tasks' contexts are paused)",
                "NonAsyncContext programs are yield-only trees (an inner synchronous flush could unblock children without the task ever being suspended for a top-level flush)",
                "contexts whose own pause/resume raise belong to C08's fault set and are not generated here"]
